@@ -526,7 +526,7 @@ def check(rep: Report, tier: str, seed: int) -> None:
     ic.compare_schedule(rep, "c01", cases, outs, due)
     ic.single_steps(rep, "c01", rng, [c for c, o in zip(cases, outs) if o["status"] == "ok"][: (12 if tier == "quick" else 400)])
     rep.extra["oracle_worst_error_over_allowed"] = round(worst, 4)
-    if rep.broken and not rep.failing:
+    if rep.broken and not rep.unknown_failing():
         search(rep, seed, 150 if tier == "quick" else 2000)
 
 
